@@ -191,6 +191,8 @@ _CORRUPT_EXCS: list[BaseException] = [
 ]
 
 comp_stubbed = reglobalize(mwm._CompressionMiddleware.process_request, pa=_PA, _decompress_with_encoding=_decompress_contract)
+# the same middleware over the REAL decompress / _decompress_body_gzip / _decompress_body_zstd (only the C libraries stubbed, C18)
+comp_real_decoder = reglobalize(mwm._CompressionMiddleware.process_request, pa=_PA, _decompress_with_encoding=c18.decompress_stubbed)
 get_stream_stubbed = reglobalize(rsp._get_request_stream, pa=_PA)
 
 _STUBS = [
@@ -275,8 +277,9 @@ def _mk_req(path: str, data: bytes, has_cl: bool, cl: int, dechunked: bool, ce: 
     return _Req(path, cl if has_cl else None, _Stream(data, _wire_len(len(data), has_cl, cl, dechunked)), ce)
 
 
-def _run(pipe: list, req: _Req) -> tuple[int, object]:
+def _run(pipe: list, req: object, comp_fn=None) -> tuple[int, object]:  # noqa: ANN001
     """(status, bytes handed to the RPC layer) — status 200 means 'reached the RPC layer'."""
+    comp_fn = comp_fn or comp_stubbed
     _Dec.calls = 0
     del _MODEL_ERRORS[:]
     try:
@@ -284,7 +287,7 @@ def _run(pipe: list, req: _Req) -> tuple[int, object]:
             if kind == "max":
                 mwm._MaxRequestBytesMiddleware.process_request(m, req, None)  # type: ignore[arg-type]
             else:
-                comp_stubbed(m, req, None)
+                comp_fn(m, req, None)
         reader = get_stream_stubbed(req)
     except falcon.HTTPError as e:
         cause = e.__cause__
@@ -862,6 +865,152 @@ def refused_body_is_not_materialised(data: bytes, has_cl: bool, cl: int, cap: in
         raise HarnessModelError(_MODEL_ERRORS[0])
     # no single object larger than cap+1 bytes of request body was ever created, refused or not
     return req.bounded_stream.biggest <= cap + 1
+
+
+# ---------------------------------------------------------------------------
+# end to end: middlewares + the real decoder loops (codec stubs only) — what gets materialised
+# ---------------------------------------------------------------------------
+
+
+class _FrameStream:
+    """bounded_stream of a request whose body is one compressed frame of ``wire`` bytes (opaque to the harness)."""
+
+    def __init__(self, frame: object, wire: int) -> None:
+        self._frame, self._wire, self._done = frame, wire, False
+        self.pulled = 0
+        self.biggest = 0
+
+    def __getattr__(self, name: str) -> object:
+        raise _model_error(f"stream stub has no {name}")
+
+    def read(self, size: int | None = None) -> object:
+        if self._done:
+            return b""
+        if size is not None and 0 <= size < self._wire:
+            raise _model_error("partial read of the opaque frame")
+        self._done = True
+        self.pulled += self._wire
+        self.biggest = self._wire
+        return self._frame
+
+    def exhaust(self, chunk_size: int = 65536) -> None:
+        self._done = True
+
+
+def _decoder_end_to_end(frame: object, n: int, plain: bytes, wire: int, cap: int, pend: int, quantum: int, lying: bool, declared: int) -> bool:
+    _set_cap(_PIPE, cap)
+    _set_decode(_PIPE, _FACTORY_DECODE)
+    rec = c18.reset_rec(cap, pend=pend, quantum=quantum)
+    codec = frame.codec  # type: ignore[attr-defined]
+    req = _Req(_RPC_PATH, wire, _FrameStream(frame, wire), codec)  # type: ignore[arg-type]
+    with c18.stub_zstandard():
+        status, handed = _run(_PIPE, req, comp_real_decoder)
+    if _MODEL_ERRORS:
+        raise HarnessModelError(_MODEL_ERRORS[0])
+    if wire > cap:
+        return status == 413 and rec.produced == 0 and rec.alloc == 0 and req.bounded_stream.pulled == 0
+    # whatever the answer: the decoder was never asked for more than min(chunk, cap - produced + 1) bytes (never for
+    # "everything"), and never produced / allocated more than the cap plus what it was already holding
+    if rec.bad_request or rec.produced > cap + (pend if pend > 1 else 1) or rec.alloc > cap:
+        return False
+    if lying:
+        return status == 413 and declared > cap if status != 400 else True
+    if n > cap:
+        return status == 413
+    return status == 200 and handed == plain
+
+
+_SHIFT = c18._REAL_CHUNK  # replays add one real chunk to every decoded length so that a real frame fits under the cap on the wire
+
+
+def _real_mw_metered(enc: object, body: bytes, cap: int) -> tuple[int, bytes | None, object]:
+    """Factory middlewares + real decompress loops + real zlib/zstandard behind recording proxies."""
+    import sys
+
+    m = c18._Meter(cap)
+    gz = reglobalize(cod._decompress_body_gzip, zlib=c18._MeterZlib(m))
+    dec = reglobalize(cod.decompress, _decompress_body_gzip=gz)
+    proc = reglobalize(mwm._CompressionMiddleware.process_request, _decompress_with_encoding=dec)
+    app = _build_app(cap)
+    env = falcon.testing.create_environ(path=_RPC_PATH, method="POST", body=body, headers={"Content-Encoding": enc.value})  # type: ignore[attr-defined]
+    req = falcon.Request(env)
+    saved = sys.modules.get("zstandard")
+    sys.modules["zstandard"] = c18._meter_zstd_module(m)
+    try:
+        for _k, mw, _ in _pipeline_any(app):
+            if isinstance(mw, mwm._CompressionMiddleware):
+                proc(mw, req, falcon.Response())
+            else:
+                mw.process_request(req, falcon.Response())
+        return 200, bytes(rsp._get_request_stream(req).read()), m
+    except falcon.HTTPContentTooLarge:
+        return 413, None, m
+    except falcon.HTTPUnsupportedMediaType:
+        return 415, None, m
+    except falcon.HTTPBadRequest:
+        return 400, None, m
+    finally:
+        if saved is not None:
+            sys.modules["zstandard"] = saved
+
+
+def _replay_decoder(codec: str, args: dict) -> str | None:
+    enc = _G if codec == "gzip" else _Z
+    mode = args.get("size_mode", 0)
+    n0, cap0 = len(args["plain"]), args["cap"]
+    for lifted in (True, False):
+        n = (c18._lift(n0) if lifted else n0) + _SHIFT
+        cap = (c18._lift(cap0) if lifted else cap0) + _SHIFT
+        plain = c18._stretch(args["plain"] or b"\x00", n)
+        if codec == "gzip":
+            body = cod.compress(_G, plain)
+            label = "gzip member"
+        else:
+            if mode == 3:
+                return None  # (lying headers: replayed at the codec level by C18)
+            body = c18.real_zstd_frame(plain, mode)
+            label = "size-declaring zstd frame" if mode == 0 else "size-less zstd frame"
+        if body is None or len(body) > cap:
+            continue
+        status, handed, m = _real_mw_metered(enc, body, cap)
+        what = f"max_request_bytes={cap}, Content-Encoding: {enc.value}, {len(body)}-byte {label} decoding to {n} bytes"
+        want = 200 if n <= cap else 413
+        if status != want or (status == 200 and handed != plain):
+            return f"{what}: answered {status}, expected {want}"
+        if m.bad:  # type: ignore[attr-defined]
+            return f"{what}: answered {status}, but {m.bad}"  # type: ignore[attr-defined]
+        if m.produced > cap + c18._REAL_CHUNK or m.alloc > cap:  # type: ignore[attr-defined]
+            return f"{what}: answered {status} after materialising {m.produced} decoded bytes (one-shot allocation {m.alloc})"  # type: ignore[attr-defined]
+    return None
+
+
+_ND = pick(8, 12)
+
+
+@cond(q=60, t=300, stubs=_STUBS[1:] + c18._STUB_TEXT[:1] + c18._STUB_TEXT[2:],
+      encoded=[mwm._MaxRequestBytesMiddleware.process_request, mwm._CompressionMiddleware.process_request, cod.decompress, cod._decompress_body_gzip],
+      bound=f"gzip member of any wire size 0..{_ND + 2} decoding to any n<={_ND} bytes, cap 0..{_ND + 2}, zlib pending output pend<={c18._P}, chunk {c18._CHUNK}",
+      replay=lambda a: _replay_decoder("gzip", a), signature=lambda a, c: "C17:gzip-decoder-materialises-beyond-cap")
+def gzip_request_decoding_is_bounded(plain: bytes, wire: int, cap: int, pend: int) -> bool:
+    """
+    pre: len(plain) <= _ND and 0 <= wire <= _ND + 2 and 0 <= cap <= _ND + 2 and 0 <= pend <= c18._P
+    post: _
+    """
+    return _decoder_end_to_end(c18._Frame("gzip", plain), len(plain), plain, wire, cap, pend, 1 << 30, False, -1)
+
+
+@cond(q=60, t=300, stubs=_STUBS[1:] + c18._STUB_TEXT[1:],
+      encoded=[mwm._MaxRequestBytesMiddleware.process_request, mwm._CompressionMiddleware.process_request, cod.decompress, cod._decompress_body_zstd, cod._zstd_content_size],
+      bound=f"zstd frame of any wire size 0..{_ND + 2} decoding to any n<={_ND} bytes, cap 0..{_ND + 2}, declared size n|-1|2**64-1|a lie 0..255, short-read quantum 1..{c18._CHUNK + 1}, chunk {c18._CHUNK}",
+      replay=lambda a: _replay_decoder("zstd", a), signature=lambda a, c: "C17:zstd-decoder-materialises-beyond-cap")
+def zstd_request_decoding_is_bounded(plain: bytes, wire: int, cap: int, size_mode: int, lie: int, quantum: int) -> bool:
+    """
+    pre: len(plain) <= _ND and 0 <= wire <= _ND + 2 and 0 <= cap <= _ND + 2 and 0 <= size_mode <= 3 and 0 <= lie <= 255 and lie != len(plain) and 1 <= quantum <= c18._CHUNK + 1
+    post: _
+    """
+    n = len(plain)
+    declared = n if size_mode == 0 else (-1 if size_mode == 1 else (c18._UNKNOWN if size_mode == 2 else lie))
+    return _decoder_end_to_end(c18._Frame("zstd", plain, declared=declared), n, plain, wire, cap, 0, quantum, size_mode == 3, declared)
 
 
 def _truncated(codec: str, plain: bytes, m: int, has_cap: bool, cap: int, declared: int, pend: int) -> bool:
